@@ -121,6 +121,7 @@ func buildTiny(letters []int, late bool, r *rand.Rand, callbacks bool) *History 
 	h.Opts.Defer = r.Intn(4) == 0
 	h.Opts.Recover = r.Intn(2) == 0
 	h.Opts.RandSeed = r.Int63n(1 << 30)
+	h.Opts.OptOrder = r.Int63n(1 << 30)
 	var names []string
 	created := !late
 	if created {
@@ -348,6 +349,7 @@ func genTinyS(idx int, r *rand.Rand) *History {
 	h.Opts.Defer = r.Intn(4) == 0
 	h.Opts.Recover = r.Intn(2) == 0
 	h.Opts.RandSeed = r.Int63n(1 << 30)
+	h.Opts.OptOrder = r.Int63n(1 << 30)
 	index := map[int]int{0: 0} // logical scope -> creation index
 	mk := func(s int) bool {
 		if _, ok := index[s]; ok {
@@ -477,6 +479,7 @@ func genTinyK(idx int, r *rand.Rand) *History {
 	h.Opts.Defer = r.Intn(4) == 0
 	h.Opts.Recover = r.Intn(2) == 0
 	h.Opts.RandSeed = r.Int63n(1 << 30)
+	h.Opts.OptOrder = r.Int63n(1 << 30)
 	created := !late
 	if created {
 		h.Ops = append(h.Ops, Op{Kind: OpScope, Scope: 0})
